@@ -660,8 +660,8 @@ Proof.
   change (cstart c0 <= i < cend (last (c0 :: mc) c0)). lia.
 Qed.
 
-(* the frozen case is an error in Python (unpacking None): the model returns None *)
-Theorem all_variants_frozen : forall ms s, multichoices ms = [] -> all_variants ms s = None.
+(* the frozen case: the only variant is the sequence itself *)
+Theorem all_variants_frozen : forall ms s, multichoices ms = [] -> all_variants ms s = Some [s].
 Proof.
   intros ms s H. unfold all_variants, choices_span. rewrite H. reflexivity.
 Qed.
